@@ -404,7 +404,9 @@ def cast_elem(x, dtype, casting="unsafe"):
         if dtype.kind in _INT_KINDS:
             return x.cast(dtype)
         if dtype.kind == "f":
-            raise OutsideModel("bit-vector integer to float conversion (use exact-integer voxels)")
+            # exact integer view of the bit-vector, then the exact rounding model
+            bits, signed = dtype_bits(x.dtype)
+            return SDy.of(SIV(z3.BV2Int(x.e, signed), x.dtype), dtype)
     if isinstance(x, SIV):
         if dtype.kind in _INT_KINDS:
             info = real_np.iinfo(dtype)
@@ -1700,8 +1702,12 @@ def _array_from_nested(x, dtype):
     fill(x, ())
     dt = dtype
     if dt is None:
-        f = next((v for v in arr.ravel() if is_elem(v)), None)
-        dt = f.dtype if f is not None else real_np.int64
+        # NumPy's own discovery of the common type: symbolic elements stand in as zeros of their type, python / NumPy
+        # scalars as themselves (e.g. uint64 elements next to a python int give float64)
+        rep = [(v.dtype.type(0) if is_elem(v) else v) for v in arr.ravel()]
+        dt = real_np.array(rep).dtype if rep else real_np.dtype(real_np.float64)
+        if dt.kind == "O":
+            raise OutsideModel("array of mixed elements without a common NumPy type")
     return SArray(_map(lambda v: v if (is_elem(v) and v.dtype == real_np.dtype(dt)) else cast_elem(v, dt), arr), dt)
 
 
